@@ -10,7 +10,7 @@ from mc import alphabets as A
 from mc import refsched, seqx
 from mc.evidence import Result, Violation
 from mc.refsched import basis_of
-from mc.worlds import World, apply, corner, make_pulse
+from mc.worlds import World, apply, corner, make_pulse, programmed_post
 
 TWO_PI = 2 * math.pi
 
@@ -36,10 +36,10 @@ def accumulator(ctx):
     elif k == "add":
         name = op[2]
         if name in pre.channels and pre.channels[name].slots and not pre.channels[name].is_dmm:
-            pl = make_pulse(op[1])
-            if float(pl.post_phase_shift) != 0:
+            pps = programmed_post(op[1])  # as written by the caller, not as reported back by the built Pulse
+            if pps != 0:
                 for q in pre.channels[name].slots[-1].targets:
-                    expected[(basis_of(pre.channels[name].ch_id), q)] = float(pl.post_phase_shift)
+                    expected[(basis_of(pre.channels[name].ch_id), q)] = pps
     elif k == "eom_pulse":
         name = op[1]
         if op[6]:
